@@ -27,6 +27,7 @@ the Lean step relation (locked = the repaired code) and the predicted directory 
 from __future__ import annotations
 
 import asyncio
+import builtins
 import errno
 import json
 import logging
@@ -156,6 +157,7 @@ class Hooks:
         self.loglock = threading.Lock()
         self.state_mutex = threading.Lock()  # orders state reads of jobs against harness mutations
         self.sink = None  # optional fd: events are also written there (crash children)
+        self.mark = None  # crash children: how many line events have happened so far
         self._orig: Dict[str, Any] = {}
 
     # -- job context
@@ -170,6 +172,8 @@ class Hooks:
             self.log.append((j, point, outcome))
         if self.sink is not None:
             os.write(self.sink, f"{j} {point} {outcome}\n".encode())
+            if outcome == "fault" and self.mark is not None:
+                os.write(self.sink, f"mark {self.mark()}\n".encode())
 
     def release_state(self):
         if getattr(self.tls, "holds", False):
@@ -221,6 +225,27 @@ class Hooks:
         self.after("replace")
         return r
 
+    def _rename(self, src, dst, *a, **kw):
+        # shutil.move and hand-written installs use os.rename: the same step as os.replace
+        if not self._mine(dst):
+            return self._orig["rename"](src, dst, *a, **kw)
+        self.ev("replace")
+        r = self._orig["rename"](src, dst, *a, **kw)
+        self.after("replace")
+        return r
+
+    def _open(self, file, mode="r", *a, **kw):
+        # a save that opens a file in our directory for writing by itself (not through tempfile):
+        # not a step of the modelled program, but a place where an I/O error can strike
+        if isinstance(mode, str) and any(c in mode for c in "wax+") and self._mine(file):
+            self.ev("open")
+        return self._orig["open"](file, mode, *a, **kw)
+
+    def _sendfile(self, *a, **kw):
+        if self.job() is not None:
+            self.ev("sendfile")
+        return self._orig["sendfile"](*a, **kw)
+
     def _remove(self, path, *a, **kw):
         if self._mine(path):
             self.ev("remove")
@@ -264,7 +289,14 @@ class Hooks:
             "remove": os.remove,
             "unlink": os.unlink,
             "exists": os.path.exists,
+            "rename": os.rename,
+            "open": builtins.open,
+            "sendfile": getattr(os, "sendfile", None),
         }
+        os.rename = self._rename
+        builtins.open = self._open
+        if self._orig["sendfile"] is not None:
+            os.sendfile = self._sendfile
         tempfile.NamedTemporaryFile = self._ntf
         os.replace = self._replace
         os.remove = self._remove
@@ -279,6 +311,10 @@ class Hooks:
         os.remove = self._orig["remove"]
         os.unlink = self._orig["unlink"]
         os.path.exists = self._orig["exists"]
+        os.rename = self._orig["rename"]
+        builtins.open = self._orig["open"]
+        if self._orig["sendfile"] is not None:
+            os.sendfile = self._orig["sendfile"]
         self._orig = {}
 
     def __enter__(self):
@@ -768,15 +804,19 @@ def _crash_child(rig: Rig, k: int, wfd: int):
             return None
 
         rig.hooks.sink = wfd
+        rig.hooks.mark = lambda: cnt[0]
         rig.hooks.install()
         rig.hooks.set_job(0)
         os.write(wfd, b"0 spawn ok\n")
         sys.settrace(tracer)
+        outcome = "ok"
         try:
             rig.driver.persist()
+        except Exception:  # noqa: BLE001  a handled failure (injected fault): the save raised
+            outcome = "raised"
         finally:
             sys.settrace(None)
-        os.write(wfd, f"0 end ok\nlines {cnt[0]}\n".encode())
+        os.write(wfd, f"0 end {outcome}\nlines {cnt[0]}\n".encode())
         os._exit(7)
     except BaseException as ex:  # noqa: BLE001
         try:
@@ -788,7 +828,7 @@ def _crash_child(rig: Rig, k: int, wfd: int):
 def crash_scenario(ctx: Ctx, scn: dict, model_cases: list, only_k: Optional[int] = None, verbose=False):
     """prev on disk (or nothing), `new` in memory, one save killed at line event k, for every k."""
     st = ctx.stats
-    ctl = Ctl()
+    ctl = Ctl(faults=[(0, *f) for f in scn.get("faults", [])])
     rig = Rig(ctl, scn["initial"], with_loop=False, write_initial=scn["prev_on_disk"])
     rig.deep = bool(scn.get("deep"))
     try:
@@ -807,6 +847,10 @@ def crash_scenario(ctx: Ctx, scn: dict, model_cases: list, only_k: Optional[int]
         stride = 1 if only_k else int(scn.get("stride", 1))
         k = only_k or int(scn.get("offset", 1))
         total = None
+        probing = bool(scn.get("faults")) and not only_k  # first an unkilled run: where does the fault strike?
+        if probing:
+            k = 10 ** 9
+        mark = None
         while True:
             d = tempfile.mkdtemp(prefix="c15k-")
             path = os.path.join(d, STATE_FILE)
@@ -843,21 +887,29 @@ def crash_scenario(ctx: Ctx, scn: dict, model_cases: list, only_k: Optional[int]
                 parts = ln.split()
                 if parts[0] == "lines":
                     total = int(parts[1])
+                elif parts[0] == "mark":
+                    mark = int(parts[1]) if mark is None else mark
                 else:
                     rlog.append((int(parts[0]), parts[1], parts[2]))
             crashed = code == 0
-            allowed = [("previous", prev), ("new", new)] if crashed else [("new", new)]
+            faulted = any(e[2] == "fault" for e in rlog)
+            allowed = [("previous", prev), ("new", new)] if (crashed or faulted) else [("new", new)]
             which, why = judge_file(path, allowed)
             target = rig.read_target()
             temps = rig.temps()
             replay = {"kind": "crash", "scenario": scn, "k": k}
             if which is None:
-                sig = "C15:crash-leaves-incomplete-state-file" if crashed else "C15:save-does-not-store-new-state"
+                sig = (
+                    "C15:crash-leaves-incomplete-state-file" if crashed
+                    else "C15:failed-save-leaves-incomplete-state-file" if faulted
+                    else "C15:save-does-not-store-new-state"
+                )
+                pre = f"with injected faults {scn['faults']}, " if scn.get("faults") else ""
                 ctx.fail(
                     sig,
-                    f"process killed at source-line event {k} of the save: {why}"
+                    pre + (f"process killed at source-line event {k} of the save: {why}"
                     if crashed
-                    else f"a save that returned normally left a file that is not the new state: {why}",
+                    else f"a save that {'failed' if faulted else 'returned normally'} left a file that is not the {'previous or the ' if faulted else ''}new state: {why}"),
                     replay,
                 )
             st.hit("op", "crash-point")
@@ -876,6 +928,12 @@ def crash_scenario(ctx: Ctx, scn: dict, model_cases: list, only_k: Optional[int]
                     {"stream": "crash", "scenario": scn["name"], "killed_at_line_event": k, "last_io_calls_before_death": [e[1] for e in rlog if e[1] in POINTS][-4:], "file_is": which, "stray_temps": len(temps)}
                 )
             shutil.rmtree(d, ignore_errors=True)
+            if probing:
+                probing = False
+                if mark is None:  # the fault never struck: nothing to enumerate
+                    break
+                k = mark + 1  # every kill point after the failed call, up to the end of the save
+                continue
             if only_k or not crashed:
                 break
             k += stride
@@ -896,6 +954,10 @@ def crash_scenarios(ctx: Ctx) -> List[dict]:
     out.append({"name": "first-save-no-file", "initial": i0, "ops": ops, "prev_on_disk": False})
     # the same save with every Python frame under it traced (stdlib included): all points in the thorough
     # tier, every 7th (seeded offset) in the quick tier
+    # fault pair (failing call, kill): the install call fails, then the process is killed at every later
+    # line of any Python frame of that save (a fallback path taken only after the failure lives there)
+    for p in ("replace", "close"):
+        out.append(dict(out[0], name=f"{p}-fails-then-killed", deep=True, faults=[[p, 1]]))
     if ctx.quick:
         out.append(dict(out[0], name="add-second-controller-every-python-frame", deep=True, stride=7, offset=rng.randrange(1, 8)))
     else:
@@ -965,6 +1027,7 @@ def fault_case(ctx: Ctx, scn: dict, saves: List[List[list]], model_cases: list, 
                 if verbose:
                     print(f"save {i}: faults fired {[(p, n) for _, p, n in fired]} -> {'raised ' + type(r).__name__ if raised else 'returned'}; file={which or 'BROKEN: ' + why}; temps={len(temps)}")
         st.case(["fault", scn["name"], saves], bool(ctl.fired))
+        ctx.last_fault_log = list(rig.hooks.log)
         labels, names = translate(rig.hooks.log)
         mc = model_case(rig.init_text, rig.chunks, labels, names)
         mc.update(stream="fault", case={"scenario": scn["name"], "saves": saves}, target=rig.read_target(), temps=rig.temps(), crash=False)
@@ -1005,6 +1068,25 @@ def fault_stream(ctx: Ctx, model_cases: list):
             fault_case(ctx, scn, [[[p, 1, "rt"]]], model_cases)
         for n in sorted({1, 2, max(per_point["write"] // 2, 1), max(per_point["write"], 1)}):
             fault_case(ctx, scn, [[["write", n, "rt"]]], model_cases)
+        # fault pairs, adaptively: a first fault, then a second one at each wrapped call the save still makes
+        # afterwards (whatever path it takes then: cleanup, or a fallback way of installing the file)
+        for first in (["mktemp", 1], ["snapshot", 1], ["write", 1], ["close", 1], ["replace", 1]):
+            ctx.last_fault_log = []
+            fault_case(ctx, scn, [[first]], model_cases)
+            seen: Dict[str, int] = {}
+            followers = []
+            struck = False
+            for j, pt, oc in ctx.last_fault_log:
+                if j != 0 or pt in ("begin", "end", "spawn", "mutate"):
+                    continue
+                seen[pt] = seen.get(pt, 0) + 1
+                if struck:
+                    followers.append([pt, seen[pt]])
+                elif oc == "fault":
+                    struck = True
+            for second in followers[:12]:
+                fault_case(ctx, scn, [[first, second]], model_cases)
+                st.hit("op", "fault-pair")
         # a fault that provokes the cleanup, combined with a fault in the cleanup itself
         for p in ("snapshot", "write", "close", "replace"):
             for c in CLEANUP_POINTS:
